@@ -87,6 +87,12 @@ Theorem C03_boundary_composition : forall (a b : br_) (t : list iev),
 Proof. exact flat_run_compose. Qed.
 Print Assumptions C03_boundary_composition.
 
+(* ... and the last boundary is the pipeline's output, so C03_every_boundary contains C03_output_protocol *)
+Theorem C03_last_boundary_is_output : forall (P : list op) (t : list iev), P <> [] -> wf t ->
+  last (bnd_pipe P t) [] = flat_run (den_pipe P) t.
+Proof. exact bnd_pipe_last. Qed.
+Print Assumptions C03_last_boundary_is_output.
+
 Example C03_boundaries_example :
   bnd_pipe [ORoll 2 1 [OScan A2Count (VInt 0) TInt true None]]
            [Create [4]; Next [4] (It (VInt 7)); Next [4] (It (VInt 8)); Done [4]]%nat
